@@ -2,14 +2,17 @@
 (* P2 for C04: program shapes (loop / recursion kind x catch nesting x what the handler does next x
    evaluation-cost setting) and the constructor grid (constructor x requested size).          *)
 EXTENDS Integers, Sequences, FiniteSets, TLC, Json
-CONSTANTS Loops, Nests, Nexts, Costs, Ctors, Sizes, Sim
+CONSTANTS Loops, Nests, Nexts, Costs, Pads, Ctors, Sizes, Sim
 VARIABLES item, done
 gvars == <<item, done>>
 Pick(S) == IF Sim THEN (IF S = {} THEN {} ELSE {RandomElement(S)}) ELSE S
 GInit == item = <<>> /\ done = FALSE
 GNext == \/ /\ ~done
+            \* pad: extra call frames below the recursion, so that every kind of frame (plain, function pointer, catch)
+            \* gets to be the one that does not fit into MaxCallDepth
             /\ \/ \E lp \in Pick(Loops), n \in Pick(Nests), x \in Pick(Nexts), c \in Pick(Costs) :
-                    item' = [t |-> "budget", loop |-> lp, nest |-> n, next |-> x, cost |-> c]
+                    \E p \in Pick(IF lp \in {"rec", "mutual", "recfp", "recfunc", "reccb", "recother"} THEN Pads ELSE {0}) :
+                    item' = [t |-> "budget", loop |-> lp, nest |-> n, next |-> x, cost |-> c, pad |-> p]
                \/ \E k \in Pick(Ctors), s \in Pick(Sizes) : item' = [t |-> "size", ctor |-> k, size |-> s]
             /\ done' = TRUE
          \/ done /\ UNCHANGED gvars
